@@ -76,6 +76,9 @@ def main(a):
         return EXIT_UNDECIDED
     if tier == "quick":
         harnesses = [h for h in harnesses if h.tier == "quick" and pid in h.quick_props]
+    elif tier == "thorough":
+        # tier=extended: harnesses that need more than the thorough budget (hours / > 18 GB); run with --tier extended only
+        harnesses = [h for h in harnesses if h.tier != "extended"]
     vunits = [u for u in verus_engine.list_units() if pid in u.props and (tier == "thorough" or u.tier == "quick")]
     if a.only:
         only = set(a.only.split(","))
